@@ -101,6 +101,12 @@ def _gen_rtpconsts():
     b = fn("write_rtcp_packet")
     put("WR_VERSION_SHIFT", _one(b, r"out\.push\(\(RTP_VERSION\s*<<\s*NUM\)", "write_rtcp_packet version shift"), "write_rtcp_packet version shift")
     put("WR_FMT_MASK", _one(b, r"\|\s*\(fmt\s*&\s*NUM\)\)", "write_rtcp_packet fmt mask"), "write_rtcp_packet fmt mask")
+    b = fn("write_rtcp_packet_padded")
+    mm = re.search(r"let\s+pad\s*=\s*\((\d+)\s*-\s*body\.len\(\)\s*%\s*(\d+)\)\s*%\s*(\d+)\s*;", b)
+    if not mm or len({mm.group(1), mm.group(2), mm.group(3)}) != 1:
+        raise Untranslatable("write_rtcp_packet_padded: pad computation not of the form (N - len % N) % N")
+    put("WP_ALIGN", int(mm.group(1)), "write_rtcp_packet_padded alignment")
+    put("WP_PAD_BIT", _one(b, r"out\[start\]\s*\|=\s*NUM\s*;", "write_rtcp_packet_padded P bit"), "write_rtcp_packet_padded P bit")
     put("MAX_SR_BLOCKS", _one(fn("build_sender_report_body"), r"sr\.report_blocks\.len\(\)\s*>\s*NUM\s*\{", "SR max blocks"), "build_sender_report_body max blocks")
     put("MAX_RR_BLOCKS", _one(fn("build_receiver_report_body"), r"rr\.report_blocks\.len\(\)\s*>\s*NUM\s*\{", "RR max blocks"), "build_receiver_report_body max blocks")
     b = fn("build_sdes_body")
@@ -127,6 +133,18 @@ def _gen_rtpconsts():
     put("NACK_MIN", _one(fn("parse_nack_body"), r"^\s*\{\s*if\s+body\.len\(\)\s*<\s*NUM\s*\{", "NACK min body"), "parse_nack_body min body")
     put("REMB_MIN", _one(fn("parse_remb_body"), r"^\s*\{\s*if\s+body\.len\(\)\s*<\s*NUM\s*\|\|", "REMB min body"), "parse_remb_body min body")
     put("TWCC_MIN", _one(fn("parse_twcc_body"), r"^\s*\{\s*if\s+body\.len\(\)\s*<\s*NUM\s*\{", "TWCC min body"), "parse_twcc_body min body")
+    # ---- sender NACK handler (src/peer_connection.rs)
+    pc = strip_comments(read(PC))
+    mm = re.findall(r"const\s+NACK_RESEND_COOLDOWN\s*:\s*Duration\s*=\s*Duration::from_millis\((\d+)\)\s*;", pc)
+    if len(mm) != 1:
+        raise Untranslatable("NACK_RESEND_COOLDOWN: expected one `Duration::from_millis(N)` definition")
+    m.raw("Definition NACK_RESEND_COOLDOWN_US : Z := %d." % (int(mm[0]) * 1000), "const NACK_RESEND_COOLDOWN (microseconds)", PC)
+    _, _, body = find_fn(pc, "packets_for_nack", "DefaultRtpSenderNackHandler")
+    m.raw("Definition RECENT_PRUNE_FACTOR : Z := %d." % _one(body, r"recent\.len\(\)\s*>\s*self\.max_size\.saturating_mul\(NUM\)", "packets_for_nack prune factor"),
+          "packets_for_nack prune factor", PC)
+    _, _, body = find_fn(pc, "new", "DefaultRtpSenderNackHandler")
+    m.raw("Definition SENDER_MIN_SIZE : Z := %d." % _one(body, r"let\s+max_size\s*=\s*max_size\.max\(NUM\)\s*;", "DefaultRtpSenderNackHandler::new minimum size"),
+          "DefaultRtpSenderNackHandler::new minimum size", PC)
     return m
 
 
